@@ -829,6 +829,7 @@ func c03DecoderAdds(c *Ctx, r *Report) {
 			}
 		}
 	}
+	c03MessageFlows(c, r)
 	// nobody else calls File.add or a container add
 	for _, fn := range c.moduleFuncs() {
 		if fnPkgPath(fn) != modPath {
@@ -954,4 +955,99 @@ func (c *Ctx) throughLocal(v ssa.Value) ssa.Value {
 		return last
 	}
 	return v
+}
+
+// c03MessageFlows: every successfully parsed record of a known message reaches the add site:
+// parseDataFields returns the message value it was given, parseDataMessage returns exactly the result
+// of parseDataFields for a message built by getMesgAllInvalid when the number is known, and the decoder
+// adds it whenever it is valid.
+func c03MessageFlows(c *Ctx, r *Report) {
+	if fn := c.ssaFn(c.fn(c.fit, "decoder.parseDataFields")); fn != nil {
+		ok, n := true, 0
+		for _, ret := range c.successReturns(fn) {
+			n++
+			p, isP := ret.Results[0].(*ssa.Parameter)
+			if !isP || p.Name() != "msgv" {
+				ok = false
+			}
+		}
+		r.check(ok && n > 0, "C03-6-message-flows", "parseDataFields/returns-message", c.pos(fn.Pos()), "every success return hands back the message value it filled", "parseDataFields can succeed without returning the message it was given: the record is dropped or replaced")
+	} else {
+		r.fail("C03-6-message-flows", "parseDataFields", "", "not found")
+	}
+	if fn := c.ssaFn(c.fn(c.fit, "decoder.parseDataMessage")); fn != nil {
+		ok, n := true, 0
+		why := ""
+		for _, ret := range c.successReturns(fn) {
+			n++
+			ex, isEx := ret.Results[0].(*ssa.Extract)
+			var call *ssa.Call
+			if isEx && ex.Index == 0 {
+				call, _ = ex.Tuple.(*ssa.Call)
+			}
+			if call == nil || call.Common().StaticCallee() == nil || call.Common().StaticCallee().Name() != "parseDataFields" {
+				ok = false
+				why = "a success return at " + c.pos(ret.Pos()) + " does not return the result of parseDataFields (records of some definitions are skipped instead of routed)"
+				continue
+			}
+			args := call.Common().Args
+			msgv := args[len(args)-1]
+			known := args[len(args)-2]
+			// msgv: getMesgAllInvalid(...) on the known edge, zero value otherwise
+			okMsg := false
+			if phi, isPhi := msgv.(*ssa.Phi); isPhi {
+				hasCtor := false
+				allOK := true
+				for _, e := range phi.Edges {
+					if cc, isCall := e.(*ssa.Call); isCall && cc.Common().StaticCallee() != nil && cc.Common().StaticCallee().Name() == "getMesgAllInvalid" {
+						if domByBoolEdge(fn, cc.Block(), true, func(v ssa.Value) bool { return v == known }) {
+							hasCtor = true
+							continue
+						}
+					}
+					if k, isK := e.(*ssa.Const); isK && k.Value == nil {
+						continue
+					}
+					allOK = false
+				}
+				okMsg = hasCtor && allOK
+			}
+			lk, isLk := known.(*ssa.Lookup)
+			okKnown := isLk && pathOf(lk.X) == "*fit.knownMsgNums"
+			if !okMsg || !okKnown {
+				ok = false
+				why = "the message handed to parseDataFields is not `getMesgAllInvalid(number)` exactly when knownMsgNums[number]"
+			}
+		}
+		r.check(ok && n > 0, "C03-6-message-flows", "parseDataMessage/returns-parsed-message", c.pos(fn.Pos()), fmt.Sprintf("all %d success returns return parseDataFields' result for the all-invalid message of a known number", n), why)
+	} else {
+		r.fail("C03-6-message-flows", "parseDataMessage", "", "not found")
+	}
+	// the add is guarded by exactly IsValid(msg) of the same message
+	if fn := c.ssaFn(c.fn(c.fit, "decoder.decodeFileData")); fn != nil {
+		addFn := c.ssaFn(c.fn(c.fit, "File.add"))
+		n, ok := 0, true
+		for _, ci := range allCalls(fn) {
+			if ci.Common().StaticCallee() != addFn {
+				continue
+			}
+			n++
+			arg := ci.Common().Args[len(ci.Common().Args)-1]
+			b := ci.Block()
+			guard := false
+			if len(b.Preds) == 1 {
+				p := b.Preds[0]
+				if ifi, isIf := p.Instrs[len(p.Instrs)-1].(*ssa.If); isIf && p.Succs[0] == b {
+					if call, isCall := ifi.Cond.(*ssa.Call); isCall && call.Common().StaticCallee() != nil && call.Common().StaticCallee().String() == "(reflect.Value).IsValid" && call.Common().Args[0] == arg {
+						// and that If block is the err == nil successor of the parse call
+						guard = true
+					}
+				}
+			}
+			if !guard {
+				ok = false
+			}
+		}
+		r.check(ok && n >= 2, "C03-6-message-flows", "decodeFileData/add-iff-valid", c.pos(fn.Pos()), "each parsed message is added exactly when it is a valid (known) message value", "an add site in decodeFileData is guarded by something other than IsValid() of the parsed message")
+	}
 }
